@@ -244,6 +244,17 @@ impl<K: HKey> Session<K> {
                 Some(t) => match t.write(&chunk_bytes(chunk)) { Ok(()) => "ok".into(), Err(_) => "err write".into() },
                 None => "notx".into(),
             },
+            // a large write whose content does not matter (the transaction will be abandoned)
+            ["writezeros", id, len] => match self.txs.get_mut(&id.parse().unwrap()) {
+                Some(t) => {
+                    let mut left: usize = len.parse().unwrap();
+                    let buf = vec![0u8; 1 << 20];
+                    let mut ok = true;
+                    while left > 0 && ok { let n = left.min(buf.len()); ok = t.write(&buf[..n]).is_ok(); left -= n; }
+                    if ok { "ok".into() } else { "err write".into() }
+                }
+                None => "notx".into(),
+            },
             ["finish", id] => match self.txs.remove(&id.parse().unwrap()) {
                 Some(t) => match t.finish() { Ok(()) => "ok".into(), Err(e) => format!("err {}", classify(&e)) },
                 None => "notx".into(),
